@@ -1106,6 +1106,7 @@ var badSyntaxes = []badSyntax{
 }
 
 func runSyntax(r *engine.Run) {
+	defer runSyntaxUTF8(r)
 	type pre struct{ id, s string }
 	pres := []pre{{"none", ""}, {"spaces", "   "}, {"tab", "\t"}, {"stmt", "var q = 1; "}, {"stmts", "q = 1; r = 2;  "}}
 	maxLines := 3
@@ -1162,6 +1163,78 @@ func runSyntax(r *engine.Run) {
 	}
 }
 
+// runSyntaxUTF8: errors raised by the lexer's own read(): bytes that are not UTF-8, in
+// every lexical context. The offending "token" is the first bad byte.
+func runSyntaxUTF8(r *engine.Run) {
+	bads := []struct{ id, s string }{
+		{"ff", "\xff"}, {"overlong-c080", "\xc0\x80"}, {"truncated2", "\xc3"}, {"truncated3", "\xe2\x82"}, {"truncated4", "\xf0\x9f\x98"},
+		{"continuation", "\x80"}, {"surrogate-ed", "\xed\xa0\x80"}, {"fe", "\xfe"},
+	}
+	ctxs := []struct {
+		id, before, after string
+		lineOnly          bool
+	}{
+		{"bare", "", ";", false},
+		{"after-statement", "var a; ", "", false},
+		{"string", `var s = "ab`, `cd";`, false},
+		{"string-single", "var s = 'ab", "cd';", false},
+		{"block-comment", "/* x ", " */ var a;", false},
+		{"line-comment", "// x ", "", false},
+		{"regexp", "var r = /a", "b/;", false},
+		{"identifier", "var a", "b;", false},
+		{"after-multibyte-same-line", "var s = \"\u00e9\u20ac\"; ", ";", true},
+	}
+	maxLines, nt := 2, 4
+	if r.Thorough() {
+		maxLines, nt = 4, len(terms)
+	}
+	r.Bound("utf8.sequences", fmt.Sprint(len(bads)))
+	r.Bound("utf8.contexts", fmt.Sprint(len(ctxs)))
+	for _, b := range bads {
+		for _, c := range ctxs {
+			for lines := 0; lines <= maxLines; lines++ {
+				for t := 0; t < nt; t++ {
+					if lines == 0 && t != 0 {
+						continue
+					}
+					for mb := 0; mb < 2; mb++ {
+						if mb == 1 && lines == 0 {
+							continue
+						}
+						key := fmt.Sprintf("utf8/%s/%s/%d/%s/%d", b.id, c.id, lines, terms[t].id, mb)
+						if !mine(r, key) {
+							continue
+						}
+						T := terms[t].s
+						var sb strings.Builder
+						for i := 0; i < lines; i++ {
+							if mb == 1 {
+								// multi-byte characters on the lines before do not move the column
+								fmt.Fprintf(&sb, "var m%d = \"\u00e9\u20ac\U0001F600\";%s", i, T)
+							} else {
+								fmt.Fprintf(&sb, "var a%d = %d;%s", i, i, T)
+							}
+						}
+						sb.WriteString(c.before)
+						off := sb.Len()
+						sb.WriteString(b.s)
+						sb.WriteString(c.after)
+						src := sb.String()
+						line, col := refPos(src, off)
+						if c.lineOnly {
+							col = -1
+						}
+						r.Begin(key)
+						checkSyntax(r, key, src, line, col)
+						r.End()
+						r.Tree(1, 1)
+					}
+				}
+			}
+		}
+	}
+}
+
 func firstSyntaxError(err error) (file string, line, col int, desc string) {
 	if err == nil {
 		return "", 0, 0, "no error"
@@ -1195,6 +1268,9 @@ func checkSyntax(r *engine.Run, key, src string, line, col int) {
 		var err error
 		res := ox.Guard(func() (otto.Value, error) { err = a.f(); return otto.Value{}, nil })
 		exp := fmt.Sprintf("%s:%d:%d", a.file, line, col)
+		if col < 0 {
+			exp = fmt.Sprintf("%s:%d:*", a.file, line) // column after non-ASCII text on the line: recorded, not asserted
+		}
 		obs := ""
 		if res.Panicked {
 			obs = fmt.Sprint("Go panic: ", res.PanicVal)
@@ -1202,6 +1278,9 @@ func checkSyntax(r *engine.Run, key, src string, line, col int) {
 			obs = d
 		} else {
 			obs = fmt.Sprintf("%s:%d:%d", f, l, c)
+			if col < 0 {
+				obs = fmt.Sprintf("%s:%d:*", f, l)
+			}
 		}
 		r.Eval(line > 1 || col > 1)
 		r.Outcome(obs)
